@@ -6,6 +6,7 @@ import importlib.util
 import inspect
 import math
 import operator
+import os
 import socket
 import sys
 import warnings
@@ -42,8 +43,12 @@ def load(path: Path, *, cache: bool = False) -> Any:
 def dump(obj: Any, path: Path) -> None:
     """Dump an object to a path using cloudpickle."""
     path.parent.mkdir(parents=True, exist_ok=True)
-    with path.open("wb") as f:
+    # Write to a temporary file and rename it: the file only appears under its final name when
+    # it is complete, so an interrupted process never leaves a partially written result behind.
+    tmp_path = path.with_name(f".{path.name}.{os.getpid()}.tmp")
+    with tmp_path.open("wb") as f:
         cloudpickle.dump(obj, f)
+    os.replace(tmp_path, path)
 
 
 def _get_cache_key(path: Path) -> tuple:
